@@ -157,7 +157,7 @@ func c04NT(call string) bool {
 func TestC04(t *testing.T) {
 	r := StartRun(t, "C04")
 	defer r.Finish()
-	r.Extra("rule", "exhaustive product: signatures over <=2 positional (with/without default), *a, <=2 keyword-only (with/without default), **k (168 signatures, as def, method and lambda) "+
+	r.Extra("rule", "exhaustive product: signatures over <=2 positional (with/without default), *a, <=2 keyword-only (with/without default), **k (168 signatures, as def, method, lambda, decorated def and def behind a forwarding decorator) "+
 		"x call shapes with <=3 positionals, every subset of keyword names {p1,p2,k1,k2,zz}, *seq of length 0-2, **map of 6 kinds (3072 shapes); quick runs a seeded third of the signatures. "+
 		"Plus Go callables of the four signatures reached as module function, through an instance and through the class. Oracle: CPython for Python functions; generator-computed "+
 		"expectation for Go callables. Non-trivial: the call mixes >=2 argument kinds (or is rejected); distinct by (signature, call).")
@@ -178,9 +178,9 @@ func TestC04(t *testing.T) {
 		if sw := s.switchName(); sw != "" && !r.On(sw) {
 			continue
 		}
-		forms := []int{si % 3}
+		forms := []int{si % 5}
 		if r.Thorough() {
-			forms = []int{0, 1, 2}
+			forms = []int{0, 1, 2, 3, 4}
 		}
 		for _, form := range forms {
 			var def, callee string
@@ -195,8 +195,16 @@ func TestC04(t *testing.T) {
 				}
 				def = "class K:\n    def m(self" + p + "):\n        return " + s.ret() + "\nf = K().m\n"
 				callee = "f"
-			default:
+			case 2:
 				def = "f = lambda " + s.params() + ": " + s.ret() + "\n"
+				callee = "f"
+			case 3:
+				// decorated: the decorator expressions are evaluated before the defaults, and the function object they get is complete
+				def = "def ident(fn):\n    return fn\n@ident\n@ident\ndef f(" + s.params() + "):\n    return " + s.ret() + "\n"
+				callee = "f"
+			default:
+				// decorated by a wrapper that forwards *a, **k
+				def = "def fwd(fn):\n    def w(*a, **k):\n        return fn(*a, **k)\n    return w\n@fwd\ndef f(" + s.params() + "):\n    return " + s.ret() + "\n"
 				callee = "f"
 			}
 			var sb strings.Builder
@@ -208,7 +216,7 @@ func TestC04(t *testing.T) {
 			if err != nil {
 				r.Infra("%v", err)
 			}
-			r.Class([]string{"def", "method", "lambda"}[form])
+			r.Class([]string{"def", "method", "lambda", "decorated-def", "forwarding-decorator"}[form])
 			for _, cl := range calls {
 				r.Count(fmt.Sprintf("%d:%s|%s", form, s.params(), cl), c04NT(cl))
 			}
